@@ -14,7 +14,7 @@ from lib.common import MachineryError, classify_mismatches, log
 PKG = "./p2p/host/basic"
 
 INV = "INVARIANTS TypeOK RightHandler"
-PROPS = "PROPERTIES OpenBinds Agreement Dispatch OneHandler NoCommon RemovedNeverRuns CommonMeansSuccess KnowledgeSources FirstOpFree"
+PROPS = "PROPERTIES OpenBinds Agreement Dispatch OneHandler NoCommon RemovedNeverRuns CommonMeansSuccess KnowledgeSources BooksApart FirstOpFree TimeFree"
 
 
 def _fast_unescape(s, _slow=tlc._unescape):
@@ -25,35 +25,49 @@ tlc._unescape = _fast_unescape
 
 
 def inst(name, host="basic", push=False, slots=1, maxtbl=2, reqs="MCReqs3", entries="MCEntriesFull", bidir=False,
-         tokens="MCP"):
-    """bidir: both hosts register handlers and open streams to each other on the one connection."""
+         tokens="MCP", three=False, timed=False):
+    """bidir: both hosts register handlers and open streams to each other on the one connection.
+    three: a dialer A with TWO listeners B, C (identical at the start), one book per listener.
+    timed: virtual time passes between operations and before the handler's answer to a half-close."""
+    meta = {"host": host, "push": push, "slots": slots, "maxtbl": maxtbl, "reqs": reqs, "entries": entries, "bidir": bidir,
+            "three": three, "timed": timed}
+    if three:
+        meta.update(hosts=["A", "B", "C"], links=[["A", "B"], ["A", "C"]])
     return name, {"Entries <- ": entries, "Reqs <- ": reqs, "Slots <- ": "MCSlots%d" % slots, "MaxTbl": maxtbl,
-                  "Tokens <- ": tokens, "Dialers <- ": "Both" if bidir else "OnlyA", "Servers <- ": "Both" if bidir else "OnlyB",
-                  "Lazy": "TRUE" if host == "basic" else "FALSE", "Push": "TRUE" if push else "FALSE"}, \
-        {"host": host, "push": push, "slots": slots, "maxtbl": maxtbl, "reqs": reqs, "entries": entries, "bidir": bidir}
+                  "Tokens <- ": tokens, "Dialers <- ": "Both" if bidir else "OnlyA",
+                  "Servers <- ": "OnlyBC" if three else "Both" if bidir else "OnlyB",
+                  "Hosts <- ": "Three" if three else "Two", "Links <- ": "LinkStar" if three else "LinkAB",
+                  "Delays <- ": "AllDelays" if timed else "NoDelay", "Waits <- ": "AllWaits" if timed else "NoWaits",
+                  "Lazy": "TRUE" if host == "basic" else "FALSE", "Push": "TRUE" if push else "FALSE"}, meta
 
 
 def replay_instances(ctx):
     """Instances whose whole state graph is printed and replayed on the real hosts."""
     out = [
         # every (table of <=2 entries out of 7, knowledge, request list of 1..3 ids): stale knowledge for real
-        inst("basic-nopush", push=False),
+        inst("basic-nopush", push=False, timed=True),
         # the same with identify push reaching the dialer: knowledge follows the table unless forgotten
         inst("basic-push", push=True),
         # two concurrently open streams (routing, per-protocol counts of 2, a table change between the
         # open and the first use of one stream while the other is served)
-        inst("basic-2streams", slots=2, reqs="MCReqs2abc", entries="MCEntriesSmall", tokens="MCTokens2"),
+        inst("basic-2streams", slots=2, reqs="MCReqs2abc", entries="MCEntriesTiny", tokens="MCTokens1"),
         # the second host implementation: always negotiates
         inst("blank-2streams", host="blank", slots=2, reqs="MCReqs2", entries="MCEntriesSmall"),
         # BOTH hosts serve and dial on the one connection (one entry each out of 3, request lists of 1..2 ids): what a
         # host learns by SERVING a stream must not leak into its choices as a dialer
         inst("bidir-nopush", bidir=True, maxtbl=1, reqs="MCReqs2ab", entries="MCEntriesBi", tokens="MCTokens1"),
+        # a THIRD host: dialer A, listeners B and C that start out identical and diverge; A's books about them are
+        # separate state (what A learns from or about one listener must never show in its dealings with the other)
+        inst("three-nopush", three=True, maxtbl=1, reqs="MCReqs3q", entries="MCEntries3q", tokens="MCTokens1"),
     ]
     if ctx.tier == "thorough":
         out += [
             inst("basic-nopush-t3", push=False, maxtbl=3),
             inst("basic-2streams-r3", slots=2, entries="MCEntriesSmall"),
             inst("blank-r3", host="blank", maxtbl=2),
+            inst("three-nopush-t", three=True, maxtbl=1, reqs="MCReqs3h", entries="MCEntries3", tokens="MCTokens1"),
+            inst("three-push", three=True, push=True, maxtbl=2, reqs="MCReqs3h", entries="MCEntries3", tokens="MCTokens1"),
+            inst("basic-push-timed", push=True, timed=True),
             inst("bidir-push", bidir=True, push=True, maxtbl=2, reqs="MCReqs2ab", entries="MCEntriesBi", tokens="MCTokens1"),
         ]
     return out
@@ -124,7 +138,7 @@ def _edge_stats(g):
             inc("open_" + op["res"])
             if op["d"] == "B":
                 inc("open_by_B_" + op["res"])
-            ltbl = g.states[s]["tbl"]["B" if op["d"] == "A" else "A"]
+            ltbl = g.states[s]["tbl"][op["l"]]
             if op["res"] == "lazy" and len(op["req"]) > 1 and op["p"] != op["req"][0]:
                 inc("open_lazy_later_entry")
                 if any(_accepts(e, op["req"][0]) for e in ltbl):
@@ -139,6 +153,10 @@ def _edge_stats(g):
             inc("use_rd_first_" + op["res"] if op["first"] else "use_rd_again")
         elif n == "finish":
             inc("finish_%s_%s" % (op["m"], "first_" + op["res"] if op["first"] else "est"))
+            if op["dl"] != "0":
+                inc("finish_delay_%s_%s" % (op["dl"], "first_" + op["res"] if op["first"] else "est"))
+        elif n == "wait":
+            inc("wait_" + op["w"])
         elif n == "reset":
             inc("reset_" + op["ph"])
         elif n == "use":
@@ -170,6 +188,10 @@ def _replay_instance(args):
         if not rev or not fwd:
             raise MachineryError("vacuity guard: bidirectional history class missing in %s (%d, %d)" % (name, rev, fwd))
         stats["bidir_reverse_open_of_unserved_id"], stats["bidir_forward_open_past_own_id"] = rev, fwd
+    if meta.get("three"):
+        stats["three_open_where_other_book_knows"] = _three_guard(g)
+        if not stats["three_open_where_other_book_knows"]:
+            raise MachineryError("vacuity guard: three-host history class missing in %s" % name)
     walks = g.covering_walks(seed=ctx.seed, max_len=120)
     steps = sum(len(w["steps"]) for w in walks)
     hdr = dict(meta)
@@ -190,7 +212,9 @@ REQUIRED_KINDS = {
               "close_unused_handler", "close_unused_nohandler", "add", "remove", "forget", "learn",
               "open_by_B_est", "open_by_B_lazy", "open_by_B_fail", "bidir_reverse_open_of_unserved_id",
               "use_rd_first_ok", "use_rd_first_fail", "use_rd_again", "finish_cw_first_ok", "finish_cw_first_fail", "finish_cw_est",
-              "finish_wcw_first_ok", "finish_wcw_first_fail", "finish_wcw_est", "reset_lazy", "reset_est"),
+              "finish_wcw_first_ok", "finish_wcw_first_fail", "finish_wcw_est", "reset_lazy", "reset_est",
+              "three_open_where_other_book_knows", "wait_tm", "wait_tp", "wait_min", "finish_delay_tm_first_ok",
+              "finish_delay_tp_first_ok", "finish_delay_min_first_ok", "finish_delay_tp_est", "finish_delay_tp_first_fail"),
     "blank": ("open_fail", "open_est", "open_est_by_matcher", "open_est_not_first", "use_again", "close_est", "add", "remove",
               "finish_cw_est", "finish_wcw_est", "use_rd_again", "reset_est"),
 }
@@ -202,12 +226,25 @@ def _bidir_guard(g):
     rev = fwd = 0
     for s, op, t in g.edges:
         if op["name"] == "open" and op["d"] == "B" and op["res"] in ("est", "lazy") and op["p"] not in \
-                [e["n"] for e in g.states[s]["tbl"]["B"]] and op["p"] not in g.states[s]["K"]["A"]:
+                [e["n"] for e in g.states[s]["tbl"]["B"]] and op["p"] not in g.states[s]["K"]["A"]["B"]:
             rev += 1
         if op["name"] == "open" and op["d"] == "A" and len(op["req"]) > 1 and op["res"] != "fail" and op["p"] != op["req"][0] \
                 and any(e["n"] == op["req"][0] for e in g.states[s]["tbl"]["A"]):
             fwd += 1
     return rev, fwd
+
+
+def _three_guard(g):
+    """The history class the three-host instance exists for: A's books about B and C differ, and A opens to the
+    listener that lacks an id the other one's book has (a negotiated open is due, whatever the other book says)."""
+    n = 0
+    for s, op, t in g.edges:
+        if op["name"] == "open" and op["res"] != "lazy":
+            k = g.states[s]["K"]["A"]
+            o = "C" if op["l"] == "B" else "B"
+            if any(p in k[o] and p not in k[op["l"]] for p in op["req"]):
+                n += 1
+    return n
 
 
 def run(ctx):
